@@ -3,7 +3,7 @@
  * or fault injecting), link-time wrappers that record each endpoint's own view of the handshake
  * (records sent/received by the handshake drivers, ECDH result, TLCP pre-master secret).
  *
- * Link with: -Wl,--wrap=tls_record_send,--wrap=tls_record_recv,--wrap=sm2_do_ecdh,--wrap=tls_pre_master_secret_generate,--wrap=tls_record_set_handshake_certificate
+ * Link with: -Wl,--wrap=tls_record_send,--wrap=tls_record_recv,--wrap=sm2_do_ecdh,--wrap=tls_pre_master_secret_generate,--wrap=tls_record_set_handshake_certificate,--wrap=hkdf_expand
  * Include after common.h and entropy.h, in exactly one translation unit. */
 #ifndef VERIF_TLS_PEER_H
 #define VERIF_TLS_PEER_H
@@ -21,6 +21,10 @@
 #include <gmssl/rand.h>
 #include <gmssl/oid.h>
 #include <gmssl/error.h>
+
+int tls13_record_encrypt(const BLOCK_CIPHER_KEY *key, const uint8_t iv[12],
+	const uint8_t seq_num[8], const uint8_t *record, size_t recordlen, size_t padding_len,
+	uint8_t *enced_record, size_t *enced_recordlen);
 
 #define T0 ((time_t)1700000000)      /* the harness' "now" (entropy.h default clock) */
 #define DAY 86400
@@ -103,6 +107,7 @@ typedef struct {
 	uint8_t ecdh_x[32]; int have_ecdh;
 	uint8_t pms[48]; int have_pms;
 	int io_count;            /* number of record I/O calls the handshake driver made */
+	uint8_t k13[4][16], iv13[4][12]; int nk13, niv13;   /* TLS 1.3 traffic keys / IVs in derivation order (hkdf_expand wrapper) */
 } view_t;
 static __thread view_t *cur_view = NULL;
 
@@ -122,6 +127,19 @@ int __real_tls_record_set_handshake_certificate(uint8_t *record, size_t *recordl
 int __wrap_tls_record_set_handshake_certificate(uint8_t *record, size_t *recordlen, const uint8_t *certs, size_t certslen) {
 	if (cur_empty_cert) return __real_tls_record_set_handshake_certificate(record, recordlen, certs, 0);
 	return __real_tls_record_set_handshake_certificate(record, recordlen, certs, certslen);
+}
+/* TLS 1.3: HKDF-Expand-Label(.., "key" / "iv", ..) outputs, in the order the driver derives them
+ * (server handshake, client handshake, server application, client application).  --wrap=hkdf_expand */
+#include <gmssl/digest.h>
+int __real_hkdf_expand(const DIGEST *digest, const uint8_t *prk, size_t prklen, const uint8_t *info, size_t infolen, size_t L, uint8_t *okm);
+int __wrap_hkdf_expand(const DIGEST *digest, const uint8_t *prk, size_t prklen, const uint8_t *info, size_t infolen, size_t L, uint8_t *okm) {
+	int r = __real_hkdf_expand(digest, prk, prklen, info, infolen, L, okm);
+	view_t *v = cur_view;
+	if (v && r == 1 && info && infolen >= 12) {
+		if (info[2] == 9 && !memcmp(info + 3, "tls13 key", 9) && L == 16 && v->nk13 < 4) memcpy(v->k13[v->nk13++], okm, 16);
+		if (info[2] == 8 && !memcmp(info + 3, "tls13 iv", 8) && L == 12 && v->niv13 < 4) memcpy(v->iv13[v->niv13++], okm, 12);
+	}
+	return r;
 }
 int __real_tls_record_send(const uint8_t *record, size_t recordlen, tls_socket_t sock);
 int __real_tls_record_recv(uint8_t *record, size_t *recordlen, tls_socket_t sock);
@@ -154,7 +172,7 @@ typedef struct {
 	int kind, dir, idx;            /* dir 0 = client->server; idx = record index in that direction */
 	size_t off; int bit;           /* F_FLIP: byte offset inside the record (header included), bit */
 	size_t keep;                   /* F_TRUNC_*: bytes of the record to deliver */
-	const uint8_t *repl; size_t repllen;   /* F_REPLACE: the record delivered instead */
+	const uint8_t *repl; size_t repllen;   /* F_REPLACE: the record delivered instead (see craft13) */
 	int applied;
 } fault_t;
 #define PMAXREC 512
@@ -165,6 +183,7 @@ typedef struct {
 	int nrec[2]; size_t reclen[2][PMAXREC]; uint8_t rectype[2][PMAXREC];
 	size_t rechdrlen[2][PMAXREC];
 	volatile int stop;
+	view_t *craft13;               /* F_REPLACE on a TLS 1.3 client record: protect an empty {Certificate} with this view's client handshake key */
 	uint8_t *copy[2][32]; size_t copylen[2][32];   /* first records of each direction (for layout) */
 } proxy_t;
 
@@ -199,7 +218,16 @@ static int px_forward(proxy_t *p, int d, uint8_t *rec, size_t len, uint8_t **hel
 		case F_SWAP: *held = malloc(len); memcpy(*held, rec, len); *heldlen = len; return 0;
 		case F_TRUNC_CLOSE: px_write(p, out, rec, f->keep < len ? f->keep : len); return -2;   /* then cut the line */
 		case F_TRUNC_FIXLEN: { size_t k = f->keep < len ? f->keep : len; if (k < 5) k = 5; rec[3] = (uint8_t)((k - 5) >> 8); rec[4] = (uint8_t)(k - 5); return px_write(p, out, rec, k); }
-		case F_REPLACE: return px_write(p, out, f->repl, f->repllen);
+		case F_REPLACE:
+			if (p->craft13 && p->craft13->nk13 >= 2 && p->craft13->niv13 >= 2) {
+				/* Certificate: type 11, length 4, empty request context, empty certificate list */
+				static const uint8_t plain[13] = { 22, 3, 3, 0, 8, 11, 0, 0, 4, 0, 0, 0, 0 };
+				uint8_t seq0[8] = { 0 }, enc[64]; size_t enclen = 0; BLOCK_CIPHER_KEY key;
+				block_cipher_set_encrypt_key(&key, BLOCK_CIPHER_sm4(), p->craft13->k13[1]);
+				if (tls13_record_encrypt(&key, p->craft13->iv13[1], seq0, plain, sizeof plain, 0, enc, &enclen) != 1) return -1;
+				return px_write(p, out, enc, enclen);
+			}
+			return px_write(p, out, f->repl, f->repllen);
 		case F_INJECT: { uint8_t inj[5 + 4] = { 22, rec[1], rec[2], 0, 4, 0, 0, 0, 0 }; return px_write(p, out, inj, sizeof inj) || px_write(p, out, rec, len); }
 		}
 	}
